@@ -63,8 +63,12 @@ def run_case(case):
     else:
         ovl = {}
         for o, t in TEXT.items():
-            p = probing(t, env=ENV)
+            # ovprobe: overriding probes whose pipeline answers with the value itself - nothing changes as long as only the
+            # handlers of probes that are active are asked
+            p = probing(t, env=ENV, overridable=(mode == "ovprobe"))
             p.subscribe(lambda d, o=o: recv[o].append(d["a"]))
+            if mode == "ovprobe":
+                p.override(lambda d: d["a"])
             ovl[o] = p
     roots = {id(sels[o]): "R" + o[1] for o in TEXT}
     gens = {}
@@ -109,7 +113,7 @@ def run_case(case):
                 ovl[op[1]].__enter__()
             elif op[0] == "exit":
                 ovl[op[1]].__exit__(None, None, None)
-                if mode == "probe":
+                if mode in ("probe", "ovprobe"):
                     ovl[op[1]].subscribe(lambda d, o=op[1]: late[o].append(1))
             elif op[0] == "new":
                 gens[op[1]] = LW.gen(2)
@@ -163,7 +167,7 @@ def run_case(case):
     gc.collect()
     for o in TEXT:
         try:
-            if mode == "probe" and getattr(ovl[o], "_activated", False):
+            if mode in ("probe", "ovprobe") and getattr(ovl[o], "_activated", False):
                 ovl[o].__exit__(None, None, None)
             if mode == "api" and getattr(ovl[o], "cm", None) is not None:
                 # a block still open when the history ends: finish it now (its generator would otherwise do so whenever it is collected)
